@@ -597,7 +597,16 @@ def build_unit(unit_path, canary=None, mutate=None):
         for k, ln in enumerate(lines):
             parts.append(OText.plain(ln + '\n', origins.get('%s:%d' % (label, k + 1))))
 
-    for p in unit['parts']:
+    def expand(ps):
+        out = []
+        for q in ps:
+            if 'use' in q:
+                out.extend(expand(json.load(open(os.path.join(VERIF, q['use'])))['parts']))
+            else:
+                out.append(q)
+        return out
+
+    for p in expand(unit['parts']):
         if 'include' in p:
             add_plain(open(os.path.join(VERIF, p['include']), encoding='utf-8').read(), 'verif:' + p['include'])
         elif 'raw' in p:
@@ -612,6 +621,8 @@ def build_unit(unit_path, canary=None, mutate=None):
                     hit = None
                     for i, t in enumerate(toks):
                         if t.text == '#' and i + 1 < len(toks) and toks[i + 1].text == '[':
+                            if toks[i + 2].text == 'keep_derive':
+                                continue
                             hit = (t.start, toks[match_close(toks, i + 1)].end)
                             break
                     if not hit:
